@@ -23,7 +23,14 @@ Dependencies replaced by their assumed contracts (DESIGN 2.6), by assignment int
   * `np.linalg.solve` -> A-linsolve: fresh leaves x with A x = b assumed;
   * `stream.vle` / `stream.lle` (the equilibrium objects) -> their C03 contract: the phase rows of the work stream
     are replaced by arbitrary non-negative flows with the same per-chemical totals (and arbitrary T for vle);
-  * pure-component models -> A-models, temperature solves -> A-root (`W.stub_thermo`) where an energy balance runs.
+  * energy side (mix_and_split, the wrappers): havoc'ed -- every mixture enthalpy / molar volume evaluation is a fresh
+    real, every temperature solve a fresh positive real (a superset of A-models + A-root; the enthalpy balance is C02's).
+
+`C20/real_solvers` (mode B, never counted as proved) runs partition / vle / lle on the real solvers for a small grid.
+
+Findings on the unchanged tree (all reproduced natively, scripts and patches under .scratch/C20/): F1 lenient moisture
+adjustment creates water; F2 infeasible flow at index 0 not reported; F3 partition leaves `bottom` stale; F4
+material_balance crashes without constant outlets; F5 moisture outside the liquid phase of a multi-phase retentate.
 """
 import os
 import sys
@@ -36,6 +43,8 @@ from engine.sx import tmo_world as W
 
 # nonlinear VCs (rational functions of phi and K): a fresh one-shot solver per clause first (engine opt-in, see sym.Ctx.prove)
 os.environ.setdefault('VERIF_PROVE_FRESH_MS', '5000')
+# branch feasibility of the clipping tests (bottom_k < 0, bottom_k > feed_k): settle `unknown` with a fresh nlsat solver
+os.environ.setdefault('VERIF_BRANCH_NLSAT_MS', '3000')
 
 sep = sys.modules['thermosteam.separations']
 
@@ -119,6 +128,23 @@ def _nonneg(w, *streams):
     return w.And(*cs)
 
 
+def _lt(w, a, b, role):
+    """a < b.  Symbolic: exact.  Native (floats): as an antecedent ('pre') it must hold by more than rounding, as a
+    consequent ('post') it may fail by rounding only -- the boundary a == b of a model is not reproducible in floats."""
+    if w.symbolic:
+        return w.lt(a, b)
+    a, b = float(a), float(b)
+    tol = 1e-9 + 1e-7 * max(abs(a), abs(b))
+    return a < b - tol if role == 'pre' else a < b + tol
+
+
+def _rep_ok(w, *streams):
+    """Stored entries are non-zero (symbolic: for all values; native: exactly, a stored 1e-17 is not a stored zero)."""
+    if w.symbolic:
+        return w.And(*[W.rep_ok(w, s) for s in streams])
+    return all(v != 0 and 0 <= i < sv.size for s in streams for _, sv in W.rows_of(s) for i, v in sv.dct.items())
+
+
 def _state(s):
     """Material state (class, phases, every entry of every row) plus T and P."""
     rows = W.rows_of(s)
@@ -142,7 +168,8 @@ class _Stubs:
     Stub packages per path, one per package name.  The material clauses of C20 must hold whatever the energy side
     does, so the energy models are *havoc'ed* (a superset of A-models + A-root, and much cheaper for the solver than
     uninterpreted models with a root assumption): every evaluation of the molar enthalpy of a mixture returns a fresh
-    real, every temperature solve returns a fresh positive real.  The enthalpy balance itself is C02's business.
+    real (molar volume: a fresh positive real), every temperature solve returns a fresh positive real.  The enthalpy
+    balance itself is C02's business.
     """
     def __init__(self, w): self.w = w; self.d = {}; self.n = 0
 
@@ -163,6 +190,9 @@ class _Stubs:
                 tuple(phase_mol)
                 return fresh('xh')
 
+            def V(self, phase, mol, T, P):
+                return fresh('v', lo=0., lo_strict=True)
+
             def solve_T_at_HP(self, phase, mol, H, T_guess, P):
                 return fresh('T_at_HP', lo=0., lo_strict=True)
 
@@ -171,7 +201,7 @@ class _Stubs:
                 return fresh('xT_at_HP', lo=0., lo_strict=True)
 
             th.mixture.__class__ = type('HavocEnergyMixture', (base,), {
-                '__slots__': (), 'H': H, 'xH': xH, 'solve_T_at_HP': solve_T_at_HP, 'xsolve_T_at_HP': xsolve_T_at_HP})
+                '__slots__': (), 'H': H, 'xH': xH, 'V': V, 'solve_T_at_HP': solve_T_at_HP, 'xsolve_T_at_HP': xsolve_T_at_HP})
             self.d[pkg] = th
         return self.d[pkg]
 
@@ -262,7 +292,7 @@ def mix_and_split(w, cfg):
         if cas not in t:
             w.ensure(f'bottom[{cas}] = 0 (chemical not in the feed)', w.eq(b[cas], 0.))
     w.ensure('no negative flows', _nonneg(w, top, bottom))
-    w.ensure('outlets rep_ok', w.And(W.rep_ok(w, top), W.rep_ok(w, bottom)))
+    w.ensure('outlets rep_ok', _rep_ok(w, top, bottom))
     for n, (s, st) in enumerate(inlets):
         if st is not None:
             w.ensure(f'inlet {n} unchanged (flows, phases, T, P)', _same_state(w, st, s))
@@ -285,11 +315,15 @@ def amc_configs(tier):
         for strict in [None, False] + ([] if quick else [True]):
             out.append({'name': f'streams={kind};pkg={pkg};ID={ID};strict={strict}', 'kind': kind, 'pkg': pkg, 'ID': ID,
                         'strict': strict})
+    # multi-phase retentate that also holds moisture outside its liquid phase (the helper writes the 'l' row only)
+    for kind, pkg, ID in [('gl', 'P2', None)] + ([] if quick else [('ls', 'P2', 'Water')]):
+        out.append({'name': f'streams={kind};pkg={pkg};ID={ID};strict=None;moisture-in-any-phase', 'kind': kind, 'pkg': pkg,
+                    'ID': ID, 'strict': None, 'anyphase': True})
     return out
 
 
-def _moisture_present(pkg, kind, ID, who):
-    """Moisture only in the liquid phase (the phase the helper writes); other chemicals anywhere."""
+def _moisture_present(pkg, kind, ID, who, anyphase=False):
+    """Moisture only in the liquid phase (the phase the helper writes) unless `anyphase`; other chemicals anywhere."""
     IDs = PKG[pkg]
     mID = ID or 'Water'
     p = {'default': 'zero'}
@@ -297,7 +331,7 @@ def _moisture_present(pkg, kind, ID, who):
     for ph in rows:
         for k in IDs:
             if k == mID:
-                if ph == 'l': p[ph, k] = 'maybe'
+                if ph == 'l' or (anyphase and who == 'ret'): p[ph, k] = 'maybe'
             elif k == [i for i in IDs if i != mID][0]:
                 p[ph, k] = 'pos' if (who == 'ret' and ph == rows[-1]) else ('maybe' if ph == rows[-1] else 'zero')
             elif who == 'ret' and ph == 'l':
@@ -335,7 +369,7 @@ def _moisture_clauses(w, cfg, ret, perm, pre, call, prefix=''):
         call()
     except InfeasibleRegion:
         w.ensure(prefix + 'InfeasibleRegion only when strict and the moisture available is insufficient',
-                 w.And(strict is not False, w.lt(avail, need)))
+                 w.And(strict is not False, _lt(w, avail, need, 'post')))
         w.canary(prefix + 'canary: InfeasibleRegion with sufficient moisture', w.ge(avail, need))
         return
     r, p = _tot(ret), _tot(perm)
@@ -349,8 +383,7 @@ def _moisture_clauses(w, cfg, ret, perm, pre, call, prefix=''):
     w.ensure(prefix + 'requested moisture fraction reached when enough moisture is available',
              w.Implies(w.ge(avail, need), w.eq(m[mcas], mc * tot)))
     w.ensure(prefix + 'normal return with insufficient moisture only when not strict',
-             w.Implies(w.lt(avail, need), strict is False))
-    w.ensure(prefix + 'rep_ok', w.And(W.rep_ok(w, ret), W.rep_ok(w, perm)))
+             w.Implies(_lt(w, avail, need, 'pre'), strict is False))
     w.canary(prefix + 'canary: moisture fraction = requested + 0.01', w.eq(m[mcas], (mc + 0.01) * tot))
     w.note(need=need, avail=avail, ret=r, perm=p)
 
@@ -362,7 +395,7 @@ def adjust_moisture_content(w, cfg):
     W.reset_caches()
     cfg = dict(cfg)
     kind, pkg, ID = cfg['kind'], cfg['pkg'], cfg['ID']
-    ret, _ = W.make_stream(w, 'ret', PKG[pkg], KINDS[kind], present=_moisture_present(pkg, kind, ID, 'ret'))
+    ret, _ = W.make_stream(w, 'ret', PKG[pkg], KINDS[kind], present=_moisture_present(pkg, kind, ID, 'ret', cfg.get('anyphase', False)))
     perm, _ = W.make_stream(w, 'perm', PKG[pkg], KINDS[kind], present=_moisture_present(pkg, kind, ID, 'perm'))
     cfg['_mc'] = mc = w.real('moisture_content', lo=0, hi=0.95, lo_strict=True, hi_strict=True)
     cfg['_pre_ret'], cfg['_pre_perm'] = _tot(ret), _tot(perm)
@@ -463,7 +496,7 @@ def phase_split(w, cfg):
             w.ensure(f'outlet {n}[{cas}] = feed[{ph},{cas}]', w.eq(v, rows[ph].get(cas, 0.)))
             if cas in total: total[cas] = total[cas] + v
         w.ensure(f'outlet {n} is a single-phase stream in phase {ph}', (not isinstance(o, tmo.MultiStream)) and o.phase == ph)
-        w.ensure(f'outlet {n} rep_ok, no negative flows', w.And(W.rep_ok(w, o), _nonneg(w, o)))
+        w.ensure(f'outlet {n} rep_ok, no negative flows', w.And(_rep_ok(w, o), _nonneg(w, o)))
     ft = _tot(feed)
     for cas in total:
         w.ensure(f'sum of outlets[{cas}] = feed', w.eq(total[cas], ft[cas]))
@@ -567,7 +600,7 @@ def handle_infeasible_flow_rates(w, cfg):
                        w.Implies(w.And(w.ge(m0[i], 0.), w.le(m0[i], x0[i])), w.eq(mol[i], m0[i]))))
         w.ensure(f'0 <= mol[{i}] <= feed[{i}]', w.And(w.ge(mol[i], 0.), w.le(mol[i], x0[i])))
     w.ensure('feed array unchanged', w.all_eq(list(maxmol), x0))
-    w.canary('canary: mol unchanged', w.all_eq(list(mol), m0))
+    w.canary('canary: mol[0] = original + 1', w.eq(mol[0], m0[0] + 1))
 
 
 # --------------------------------------------------------------------------- partition / phase_fraction
@@ -654,7 +687,7 @@ def partition(w, cfg):
     for n, i in enumerate(IDs):
         for m, j in enumerate(IDs):
             if m > n:
-                w.ensure(f'K reproduced up to a common factor [{i},{j}]: top_i/bottom_i : top_j/bottom_j = K_i : K_j',
+                w.ensure(f'K reproduced up to a common factor [{i},{j}]: top_i * bottom_j * K_j = top_j * bottom_i * K_i',
                          w.eq(t[cas[i]] * b[cas[j]] * K[m], t[cas[j]] * b[cas[i]] * K[n]))
     for ID in _as_list(tc):
         w.ensure(f'top chemical [{ID}] entirely in top', w.And(w.eq(t[cas[ID]], f[cas[ID]]), w.eq(b[cas[ID]], 0.)))
@@ -718,9 +751,398 @@ def phase_fraction(w, cfg):
     w.canary('canary: phase fraction = solved + 1', w.eq(phi, p0 + 1))
 
 
-def _phi_stub_named(w, calls, name):
-    def compute_phase_fraction(zs, Ks, guess=None, za=0., zb=0.):
-        phi = w.real(f'{name}{len(calls)}')
-        calls.append({'zs': list(zs), 'Ks': list(Ks), 'guess': guess, 'za': za, 'zb': zb, 'phi': phi})
-        return phi
-    return compute_phase_fraction
+# --------------------------------------------------------------------------- partition_coefficients
+
+def pc_configs(tier):
+    fams = [('P3', ['Water', 'Ethanol'], 'l', 'l'), ('P3', ['Ethanol', 'Octane', 'Water'], 'g', 'l')]
+    if tier != 'quick':
+        fams += [('Q4', ['Water', 'Ethanol'], 'g', 'l'), ('P4', ['Methanol', 'Water', 'Octane'], 'l', 'l'), ('P2', ['Water', 'Ethanol'], 'g', 'l')]
+    return [{'name': f'pkg={p};IDs={"+".join(i)};top={t};bottom={b}', 'pkg': p, 'IDs': i, 't': t, 'b': b} for p, i, t, b in fams]
+
+
+@group('C20/partition_coefficients', configs=pc_configs,
+       functions=['thermosteam.separations:partition_coefficients', 'thermosteam._stream:Stream.get_normalized_mol'])
+def partition_coefficients(w, cfg):
+    """K_k * x_k = y_k with x, y the mole fractions over the given chemicals in bottom and top (x floored at 1e-24)."""
+    W.reset_caches()
+    pkg, IDs = cfg['pkg'], tuple(cfg['IDs'])
+    p = {'default': 'maybe', (cfg['t'], IDs[0]): 'pos'}
+    top, _ = W.make_stream(w, 'top', PKG[pkg], cfg['t'], present=p)
+    p = {'default': 'maybe', (cfg['b'], IDs[0]): 'pos'}
+    bottom, _ = W.make_stream(w, 'bot', PKG[pkg], cfg['b'], present=p)
+    pre = _state(top), _state(bottom)
+    K = sep.partition_coefficients(IDs, top, bottom)
+    t, b = _tot(top), _tot(bottom)
+    cas = [W.chemical(i).CAS for i in IDs]
+    Ft, Fb = w.total([t[c] for c in cas]), w.total([b[c] for c in cas])
+    w.ensure('one coefficient per chemical', len(K) == len(IDs))
+    for k, ID, c in zip(K, IDs, cas):
+        # y_k = t_k / Ft,  x_k = max(b_k / Fb, 1e-24);  K_k * x_k = y_k, cross-multiplied by the (positive) totals
+        floored = w.lt(b[c], 1e-24 * Fb) if w.symbolic else bool(b[c] / Fb < 1e-24)    # exact guard natively (no tolerance)
+        w.ensure(f'K[{ID}] * x = y',
+                 w.And(w.Implies(w.Not(floored), w.eq(k * b[c] * Ft, t[c] * Fb)),
+                       w.Implies(floored, w.eq(k * 1e-24 * Ft, t[c]))))
+    w.ensure('streams unchanged', w.And(_same_state(w, pre[0], top), _same_state(w, pre[1], bottom)))
+    w.canary('canary: K = 1', w.eq(K[0], 1.))
+
+
+# --------------------------------------------------------------------------- chemical_splits
+
+def cs_configs(tier):
+    fams = [('ab', 'P3', 'l', 'g'), ('ab', 'P3', 'l', 'l'), ('mixed', 'P3', 'l', 'l'), ('mixed-multi', 'P3', 'g', 'gl')]
+    if tier != 'quick':
+        fams += [('ab', 'P4', 'g', 'l'), ('mixed', 'Q4', 'l', 'g'), ('mixed-multi', 'P2', 'l', 'gl'), ('mixed-multi', 'P3', 'L', 'Ll')]
+    return [{'name': f'{how};pkg={p};a={a};other={o}', 'how': how, 'pkg': p, 'a': a, 'o': o} for how, p, a, o in fams]
+
+
+@group('C20/chemical_splits', configs=cs_configs,
+       functions=['thermosteam.separations:chemical_splits', 'thermosteam.indexer:ChemicalIndexer.from_data',
+                  'thermosteam.base.sparse:SparseVector.__truediv__'])
+def chemical_splits(w, cfg):
+    """splits * mixed flow = flow of the first stream, chemical by chemical; the streams are only read."""
+    W.reset_caches()
+    pkg, how = cfg['pkg'], cfg['how']
+    IDs = PKG[pkg]
+    # the result is labelled with the chemicals of the *default* package (settings), as in the doctest
+    tmo.settings.set_thermo(W.thermo(IDs))
+    if how == 'ab':
+        a, _ = W.make_stream(w, 'a', IDs, cfg['a'], present=None)
+        b, _ = W.make_stream(w, 'b', IDs, cfg['o'], present=None)
+        args, kw, streams = (a, b), {}, [a, b]
+        mixed_t = {c: _tot(a)[c] + _tot(b)[c] for c in _tot(a)}
+    elif how == 'mixed':
+        a, _ = W.make_stream(w, 'a', IDs, cfg['a'], present=None)
+        m, _ = W.make_stream(w, 'm', IDs, cfg['o'], present=None)
+        ta, tm = _tot(a), _tot(m)
+        for c in ta:                              # requires: `a` is part of the mixed stream
+            w.assume(w.le(ta[c], tm[c]))
+        args, kw, streams = (a,), {'mixed': m}, [a, m]
+        mixed_t = tm
+    else:
+        m, _ = W.make_stream(w, 'm', IDs, KINDS[cfg['o']], present=_present(pkg, cfg['o'], 'two-maybe'))
+        a = m[cfg['a']]                           # one phase of the mixed stream, as in the doctest
+        args, kw, streams = (a,), {'mixed': m}, [m]
+        mixed_t = _tot(m)
+    pre = [_state(s) for s in streams]
+    a_t = _row(m, cfg['a']) if how == 'mixed-multi' else _tot(a)
+    splits = sep.chemical_splits(*args, **kw)
+    w.ensure('result is a ChemicalIndexer over the same chemicals',
+             isinstance(splits, tmo.indexer.ChemicalIndexer) and splits.chemicals is a.chemicals)
+    got = dict(zip(a.chemicals.CASs, _dense(splits.data)))
+    for c in got:
+        w.ensure(f'split[{c}] * mixed = a', w.eq(got[c] * mixed_t[c], a_t[c]))
+        w.ensure(f'0 <= split[{c}] <= 1, 0 where nothing flows', w.And(w.ge(got[c], 0.), w.le(got[c], 1.),
+                                                                      w.Implies(w.eq(mixed_t[c], 0.), w.eq(got[c], 0.))))
+    w.ensure('streams unchanged', w.And(*[_same_state(w, st, s) for st, s in zip(pre, streams)]))
+    c0 = a.chemicals.CASs[0]
+    w.canary('canary: split * mixed = a + 1', w.eq(got[c0] * mixed_t[c0], a_t[c0] + 1))
+
+
+# --------------------------------------------------------------------------- material_balance (A-linsolve)
+
+class _NPProxy:
+    """`np` of thermosteam.separations with `linalg.solve` replaced by its assumed contract; all else forwarded."""
+    class _Linalg:
+        def __init__(self, base, solve): self._base = base; self.solve = solve
+        def __getattr__(self, name): return getattr(self._base, name)
+    def __init__(self, base, solve):
+        self._base = base
+        self.linalg = _NPProxy._Linalg(base.linalg, solve)
+    def __getattr__(self, name): return getattr(self._base, name)
+
+
+def _linsolve_stub(w, calls):
+    """A-linsolve: np.linalg.solve(A, b) returns x with A x = b (fresh leaves, equation assumed)."""
+    def solve(A, b):
+        n = len(b)
+        x = [w.real(f'x{len(calls)}.{i}') for i in range(n)]
+        for i in range(n):
+            w.assume(w.eq(w.total([A[i][j] * x[j] for j in range(n)]), b[i]))
+        calls.append({'A': [list(r) for r in A], 'b': list(b), 'x': x})
+        return _arr(w, x)
+    return solve
+
+
+def _det(M):
+    n = len(M)
+    if n == 1: return M[0][0]
+    if n == 2: return M[0][0] * M[1][1] - M[0][1] * M[1][0]
+    return (M[0][0] * (M[1][1] * M[2][2] - M[1][2] * M[2][1]) - M[0][1] * (M[1][0] * M[2][2] - M[1][2] * M[2][0])
+            + M[0][2] * (M[1][0] * M[2][1] - M[1][1] * M[2][0]))
+
+
+def mb_configs(tier):
+    quick = tier == 'quick'
+    fams = [  # (chemical_IDs, variable inlets, constant inlets, constant outlets) as (kind, package, presence) triples
+        (['Water'], [('l', 'P3', 'all-pos')], [], [('l', 'P3', 'two-maybe')]),
+        (['Water', 'Ethanol'], [('l', 'P3', 'two-maybe'), ('l', 'P3', 'all-pos')], [('l', 'P3', 'two-maybe')],
+         [('l', 'P3', 'two-maybe'), ('g', 'P3', 'maybe')]),
+        (['Octane', 'Water'], [('l', 'P3', 'pos+maybe'), ('g', 'P3', 'pos+maybe')], [], [('l', 'P3', 'all-pos')]),
+        (['Water', 'Octane'], [('l', 'P3', 'pos+maybe'), ('l', 'P3', 'pos+maybe')], [('l', 'P3', 'pos')], []),   # no outlet: defaults
+    ]
+    if not quick:
+        fams += [
+            (['Water', 'Ethanol', 'Octane'], [('l', 'P3', 'pos+maybe'), ('l', 'P3', 'two-maybe'), ('g', 'P3', 'all-pos')],
+             [('l', 'P3', 'maybe')], [('l', 'P3', 'all-pos')]),
+            (['Ethanol', 'Water'], [('l', 'Q4', 'all-pos'), ('l', 'Q4', 'two-maybe')], [('l', 'Q4', 'pos'), ('g', 'Q4', 'maybe')],
+             [('l', 'Q4', 'two-maybe')]),
+            (['Water', 'Ethanol'], [('l', 'P2', 'all-pos'), ('l', 'P2', 'all-pos')], [('gl', 'P2', 'pos')], [('gl', 'P2', 'all-pos')]),
+            (['Water'], [('l', 'P2', 'all-pos')], [], []),
+        ]
+    out = []
+    for IDs, var, cin, cout in fams:
+        f = lambda xs: '+'.join(f'{k}{p}:{m}' for k, p, m in xs)
+        out.append({'name': f'IDs={"+".join(IDs)};var={f(var)};in={f(cin)};out={f(cout)}', 'IDs': IDs, 'var': var, 'cin': cin, 'cout': cout})
+    return out
+
+
+@group('C20/material_balance', configs=mb_configs,
+       functions=['thermosteam.separations:material_balance'], assumptions=['A-linsolve'])
+def material_balance(w, cfg):
+    """balance='flow': every variable inlet is scaled by its own factor and afterwards inlets - outlets = 0 on the chosen
+    chemicals; constant streams are unchanged."""
+    W.reset_caches()
+    IDs = tuple(cfg['IDs'])
+    mk = lambda nm, k, p, m: W.make_stream(w, nm, PKG[p], KINDS[k], present=_present(p, k, m))[0]
+    var = [mk(f'v{n}', *t) for n, t in enumerate(cfg['var'])]
+    cin = [mk(f'ci{n}', *t) for n, t in enumerate(cfg['cin'])]
+    cout = [mk(f'co{n}', *t) for n, t in enumerate(cfg['cout'])]
+    cas = [W.chemical(i).CAS for i in IDs]
+    v0 = [_tot(s) for s in var]
+    # quantifier: invertible inlet-composition matrix (rows = chosen chemicals, columns = variable inlets)
+    w.assume(w.ne(_det([[v0[j][c] for j in range(len(var))] for c in cas]), 0.))
+    pre_rows = [[[x for x in _dense(sv)] for _, sv in W.rows_of(s)] for s in var]
+    pre_const = [_state(s) for s in cin + cout]
+    calls = []
+    base_np = sep.__dict__['np']
+    with _rebound(np=_NPProxy(base_np, _linsolve_stub(w, calls))):
+        sep.material_balance(IDs, var, cin, cout)
+    w.ensure('one linear solve', len(calls) == 1)
+    x = calls[0]['x']
+    for c, ID in zip(cas, IDs):
+        inn = w.total([_tot(s)[c] for s in var + cin])
+        out = w.total([_tot(s)[c] for s in cout])
+        w.ensure(f'inlets - outlets = 0 for [{ID}]', w.eq(inn - out, 0.))
+    for n, s in enumerate(var):
+        rows = [[v for v in _dense(sv)] for _, sv in W.rows_of(s)]
+        w.ensure(f'variable inlet {n} is scaled by its factor (every chemical, every phase)',
+                 w.And(len(rows) == len(pre_rows[n]),
+                       *[w.eq(a, x[n] * b) for r, r0 in zip(rows, pre_rows[n]) for a, b in zip(r, r0)]))
+    w.ensure('constant inlets and outlets unchanged', w.And(*[_same_state(w, st, s) for st, s in zip(pre_const, cin + cout)]))
+    w.canary('canary: variable inlet 0 unchanged', w.eq(_tot(var[0])[cas[0]], v0[0][cas[0]] + 1))
+    w.note(x=x, A=calls[0]['A'], b=calls[0]['b'])
+
+
+# --------------------------------------------------------------------------- lle / vle wrappers (equilibrium by its C03 contract)
+
+def _write_dense(sv, values):
+    """Store a dense image in a sparse row (engine side of the equilibrium stub)."""
+    dct = sv.dct
+    if hasattr(dct, 'put'):                      # contract level of the kernels: presence stays undecided
+        for k, v in enumerate(values): dct.put(k, v)
+    else:
+        for k, v in enumerate(values):
+            if v: dct[k] = v
+            else: dct.pop(k, None)
+
+
+class _EquilibriumStub:
+    """
+    What `ms.vle` / `ms.lle` return: a callable obeying the C03 contract of the equilibrium objects -- afterwards the
+    two phase rows hold ARBITRARY non-negative flows whose per-chemical sum is the material the stream held before
+    (all phases); other rows are empty; T (and P) are the given ones or arbitrary positive values.
+    """
+    def __init__(self, w, ms, a, b, log):
+        self.w, self.ms, self.a, self.b, self.log = w, ms, a, b, log
+
+    def __call__(self, T=None, P=None, **kw):
+        w, ms = self.w, self.ms
+        n = len(self.log)
+        rows = dict(W.rows_of(ms))
+        size = rows[self.a].size
+        tot = [0.] * size
+        for ph, sv in rows.items():
+            for k, v in enumerate(_dense(sv)): tot[k] = tot[k] + v
+        ya = []
+        for k in range(size):
+            if tot[k].__class__ in (int, float) and tot[k] == 0:
+                ya.append(0.); continue
+            y = w.real(f'eq{n}.{self.a}.{k}', lo=0.)
+            w.assume(w.le(y, tot[k]))
+            ya.append(y)
+        for ph, sv in rows.items():
+            if ph == self.a: _write_dense(sv, ya)
+            elif ph == self.b: _write_dense(sv, [t - y for t, y in zip(tot, ya)])
+            else: _write_dense(sv, [0.] * size)
+        ms.T = T if T is not None else w.real(f'eq{n}.T', lo=0., lo_strict=True)
+        if P is not None: ms.P = P
+        self.log.append({'T': T, 'P': P, 'kw': kw, self.a: ya, self.b: [t - y for t, y in zip(tot, ya)], 'total': tot})
+
+
+class _equilibrium_stubbed:
+    """Rebinds the MultiStream.vle / .lle properties (phase expansion kept as in the real property)."""
+    def __init__(self, w, log): self.w, self.log = w, log
+    def __enter__(self):
+        self.saved = (tmo.MultiStream.__dict__['vle'], tmo.MultiStream.__dict__['lle'])
+        w, log = self.w, self.log
+
+        def vle(ms):
+            phases = ms.phases
+            if 'l' not in phases or 'g' not in phases: ms.phases = [*phases, 'l', 'g']
+            return _EquilibriumStub(w, ms, 'g', 'l', log)
+
+        def lle(ms):
+            phases = ms.phases
+            if 'l' not in phases or 'L' not in phases: ms.phases = [*phases, 'l', 'L']
+            return _EquilibriumStub(w, ms, 'L', 'l', log)
+        tmo.MultiStream.vle = property(vle)
+        tmo.MultiStream.lle = property(lle)
+        return self
+    def __exit__(self, *exc):
+        tmo.MultiStream.vle, tmo.MultiStream.lle = self.saved
+        return False
+
+
+def eqw_configs(tier):
+    quick = tier == 'quick'
+    out = []
+    lle = [('P3', 'Octane', 'one', None), ('P3', 'Octane', 'leaf', None), ('P3', None, 'one', None), ('P3', 'Octane', 'leaf', 'Ll')]
+    vle = [('P3', 'V', None), ('P3', 'TP', None), ('P3', 'Q', None), ('P3', 'V', 'gl')]
+    if not quick:
+        lle += [('P3', None, 'leaf', None), ('Q4', 'Water', 'leaf', 'Ll'), ('P2', None, 'leaf', 'Ll'), ('P3', 'Octane', 'one', 'Ll')]
+        vle += [('Q4', 'TP', 'gl'), ('P2', 'Q', 'gl'), ('P3', 'Q', 'gl')]
+    for pkg, tc, eff, ms in lle:
+        out.append({'name': f'lle;pkg={pkg};top_chemical={tc};efficiency={eff};multi_stream={ms}', 'what': 'lle', 'pkg': pkg,
+                    'tc': tc, 'eff': eff, 'ms': ms})
+    for pkg, spec, ms in vle:
+        out.append({'name': f'vle;pkg={pkg};spec={spec};multi_stream={ms}', 'what': 'vle', 'pkg': pkg, 'spec': spec, 'ms': ms})
+    return out
+
+
+@group('C20/equilibrium_wrappers', configs=eqw_configs,
+       functions=['thermosteam.separations:lle', 'thermosteam.separations:vle'],
+       assumptions=['A-equilibrium-C03 (stream.vle / stream.lle conserve every chemical, give non-negative flows)',
+                    'A-models'], l0=True)
+def equilibrium_wrappers(w, cfg):
+    """The wrappers hand the phases of the equilibrated copy to the outlets: outlets sum to the feed, are non-negative,
+    replace whatever the outlets held, and leave the feed alone (lle: plus the efficiency mixing rule)."""
+    W.reset_caches()
+    th = _Stubs(w)
+    pkg = cfg['pkg']
+    IDs = PKG[pkg]
+    feed, _ = W.stream_on(w, 'feed', th(pkg), 'l', present={'default': 'maybe', ('l', IDs[0]): 'pos'})
+    o1, _ = W.stream_on(w, 'o1', th(pkg), 'l', present={'default': 'zero', ('l', IDs[-1]): 'pos'})
+    o2, _ = W.stream_on(w, 'o2', th(pkg), 'g', present={'default': 'zero', ('g', IDs[0]): 'pos'})
+    ms = None
+    if cfg['ms']:
+        ms, _ = W.stream_on(w, 'ms', th(pkg), KINDS[cfg['ms']], present={'default': 'zero', (KINDS[cfg['ms']][0], IDs[1]): 'pos'})
+    pre = _state(feed)
+    f = _tot(feed)
+    CASs = feed.chemicals.CASs
+    log = []
+    with _equilibrium_stubbed(w, log):
+        if cfg['what'] == 'lle':
+            eff = 1.0 if cfg['eff'] == 'one' else w.real('efficiency', lo=0, hi=1)
+            kw = {} if cfg['eff'] == 'one' else {'efficiency': eff}
+            sep.lle(feed, o1, o2, top_chemical=cfg['tc'], multi_stream=ms, **kw)
+        else:
+            kw = {'P': w.real('P', lo=0, lo_strict=True)}
+            if cfg['spec'] == 'V': kw['V'] = w.real('V', lo=0, hi=1)
+            elif cfg['spec'] == 'TP': kw['T'] = w.real('T', lo=0, lo_strict=True)
+            else: kw['Q'] = w.real('Q')
+            sep.vle(feed, o1, o2, multi_stream=ms, **kw)
+    t1, t2 = _tot(o1), _tot(o2)
+    for c in CASs:
+        w.ensure(f'outlet 1[{c}] + outlet 2[{c}] = feed', w.eq(t1[c] + t2[c], f[c]))
+    w.ensure('no negative flows', _nonneg(w, o1, o2))
+    w.ensure('feed unchanged (flows, phases, T, P)', _same_state(w, pre, feed))
+    w.ensure('equilibrium ran exactly once', len(log) == 1)
+    e = log[0]
+    if cfg['what'] == 'lle':
+        L, l = e['L'], e['l']
+        half = [(1. - eff) / 2. * f[c] for c in CASs]
+        asL = lambda t: w.And(*[w.eq(t[c], eff * L[k] + half[k]) for k, c in enumerate(CASs)])
+        asl = lambda t: w.And(*[w.eq(t[c], eff * l[k] + half[k]) for k, c in enumerate(CASs)])
+        if cfg['tc']:
+            w.ensure('top = efficiency * extract phase (L) + half of the rest of the feed; bottom likewise with l',
+                     w.And(asL(t1), asl(t2)))
+        else:
+            w.ensure('outlets = efficiency * one liquid phase each + half of the rest of the feed',
+                     w.Or(w.And(asL(t1), asl(t2)), w.And(asl(t1), asL(t2))))
+        w.ensure('equilibrium at the temperature of the feed; outlets at T, P of the feed',
+                 w.And(w.eq(e['T'], pre[1]), w.eq(o1.T, pre[1]), w.eq(o2.T, pre[1]), w.eq(o1.P, pre[2]), w.eq(o2.P, pre[2])))
+    else:
+        w.ensure('vapor outlet = g phase, liquid outlet = l phase of the equilibrated stream',
+                 w.And(*[w.eq(t1[c], e['g'][k]) for k, c in enumerate(CASs)], *[w.eq(t2[c], e['l'][k]) for k, c in enumerate(CASs)]))
+        w.ensure("outlets are single-phase 'g' and 'l'", (not isinstance(o1, tmo.MultiStream)) and o1.phase == 'g'
+                 and (not isinstance(o2, tmo.MultiStream)) and o2.phase == 'l')
+        w.ensure('specification passed on to the equilibrium',
+                 w.And(e['P'] is not None and bool(w.eq(e['P'], kw['P'])) if not w.symbolic else w.eq(e['P'], kw['P']),
+                       *([w.eq(e['kw'].get('V'), kw['V'])] if 'V' in kw else []),
+                       *([w.eq(e['T'], kw['T'])] if 'T' in kw else []),
+                       (e['kw'].get('H') is not None) == ('Q' in kw)))
+        w.ensure('outlets at the same T and P', w.And(w.eq(o1.T, o2.T), w.eq(o1.P, o2.P), w.eq(o1.P, kw['P'])))
+    if ms is not None:
+        m = _tot(ms)
+        w.ensure('multi_stream holds the material of the feed', w.And(*[w.eq(m[c], f[c]) for c in CASs]))
+    w.canary('canary: outlet 1 + outlet 2 = feed + 1', w.eq(t1[CASs[0]] + t2[CASs[0]], f[CASs[0]] + 1))
+    w.canary('canary: everything ends in outlet 1', w.eq(t2[CASs[0]], 0.))
+
+
+# --------------------------------------------------------------------------- mode B: the same helpers on the REAL solvers (bounded, not counted as proved)
+
+def real_configs(tier):
+    out = []
+    Ks = [[0.629, 1.59], [5., 9.], [0.2, 0.5], [1e-3, 1e3], [0.9, 1.1]] + ([] if tier == 'quick' else [[1e3, 1e-3], [1., 1.], [0.5, 2.]])
+    feeds = [[20., 20., 0.1], [1., 30., 0.], [5., 0., 2.]] + ([] if tier == 'quick' else [[1e-6, 3., 1.], [40., 1., 10.]])
+    for K in Ks:
+        for f in feeds:
+            for forced in [None, 'top', 'bottom']:
+                if forced and tier == 'quick' and f != feeds[0]: continue
+                out.append({'name': f'partition;K={K};feed={f};forced={forced}', 'what': 'partition', 'K': K, 'feed': f, 'forced': forced})
+    quick = tier == 'quick'     # the first vle / lle call of a process pays ~5 s of numba compilation: two each in the quick tier
+    for spec in [{'V': 0.5, 'P': 101325.}, {'T': 355., 'P': 101325.}, {'V': 0., 'P': 101325.}, {'V': 1., 'P': 50000.}, {'Q': 1e5, 'P': 101325.}][:2 if quick else None]:
+        for f in feeds[:1 if quick else 2]:
+            out.append({'name': f'vle;spec={spec};feed={f}', 'what': 'vle', 'spec': spec, 'feed': f})
+    for eff in [0.99, 1.0, 0.5, 0.][:1 if quick else None]:
+        for tc in ['Octane', None]:
+            out.append({'name': f'lle;efficiency={eff};top_chemical={tc}', 'what': 'lle', 'eff': eff, 'tc': tc, 'feed': [20., 1., 20.]})
+    return out
+
+
+@group('C20/real_solvers', configs=real_configs, mode='B',
+       functions=['thermosteam.separations:partition', 'thermosteam.separations:vle', 'thermosteam.separations:lle',
+                  'thermosteam.equilibrium.binary_phase_fraction:phase_fraction'],
+       notes='real Rachford-Rice / VLE / LLE solvers on Water-Ethanol-Octane, the listed K, feeds, specifications and '
+             'efficiencies; outlets start with prior contents (10 kmol/hr of every chemical)')
+def real_solvers(w, cfg):
+    W.reset_caches()
+    th = W.thermo(P3)
+    mk = lambda flows, phase='l': tmo.Stream(None, thermo=th, phase=phase, **{i: v for i, v in zip(P3, flows) if v})
+    feed = mk(cfg['feed'])
+    o1, o2 = mk([10., 10., 10.]), mk([10., 10., 10.], 'g')
+    f = _tot(feed)
+    pre = _state(feed)
+    try:
+        if cfg['what'] == 'partition':
+            kw = {'top': {'top_chemicals': ('Octane',)}, 'bottom': {'bottom_chemicals': 'Octane'}, None: {}}[cfg['forced']]
+            K = np.array(cfg['K'])
+            sep.partition(feed, o1, o2, ('Water', 'Ethanol'), K, **kw)
+        elif cfg['what'] == 'vle':
+            sep.vle(feed, o1, o2, **cfg['spec'])
+        else:
+            sep.lle(feed, o1, o2, top_chemical=cfg['tc'], efficiency=cfg['eff'])
+    except Exception as e:
+        # the property speaks about calls that return normally (what may be raised is the business of the S groups;
+        # forked numba workers also raise spurious ReferenceErrors inside flexsolve now and then)
+        w.note(skipped=repr(e)[:200])
+        return
+    t1, t2 = _tot(o1), _tot(o2)
+    for c in f:
+        w.ensure(f'outlet 1[{c}] + outlet 2[{c}] = feed', w.eq(t1[c] + t2[c], f[c]))
+    w.ensure('no negative flows', _nonneg(w, o1, o2))
+    w.ensure('feed unchanged (flows, phases, T, P)', _same_state(w, pre, feed))
+    if cfg['what'] == 'partition':
+        cw, ce = W.chemical('Water').CAS, W.chemical('Ethanol').CAS
+        w.ensure('K reproduced up to a common factor', w.eq(t1[cw] * t2[ce] * cfg['K'][1], t1[ce] * t2[cw] * cfg['K'][0]))
+    w.note(o1=t1, o2=t2)
